@@ -71,6 +71,7 @@ func c05Vars() map[string]mj.Recipe {
 		"rp":    {T: "ranger-plain", Ss: []string{"s0", "", "s2"}},
 		"stk":   {T: "stack-ranger", Ss: []string{"bottom", "middle", "top"}},
 		"ih":    {T: "iface-holder"},
+		"eh":    {T: "err-holder"},
 		"nrg":   {T: "nilok-ranger"},
 		"okrg":  {T: "nilok-ranger", Ss: []string{"n0", "n1"}},
 		"e_xs":  mj.RInts(),
@@ -124,7 +125,13 @@ var c05Subjects = []c05Subject{
 var c05CondVars = []string{"bt", "bf", "i0", "i1", "i8", "u0", "u3", "f0", "f1", "f32", "s0", "s1", "nl", "np", "pu", "us", "nm", "em", "ns", "es", "xs", "e_xs"}
 
 func (g *c05Gen) cond(scope []string) *mj.Expr {
-	switch k := g.n(0, 12, "condkind"); {
+	switch k := g.n(0, 13, "condkind"); {
+	case k == 13:
+		// a slot of an interface type that has methods (error, fmt.Stringer) with something in it is true, whatever the
+		// value inside looks like (a struct without fields, here)
+		f := []string{"Err", "Note"}[g.n(0, 1, "ifaceCondField")]
+		g.labels["cond:slot-of-an-interface-type-with-methods:"+f] = true
+		return mj.Chain(mj.Var("eh"), f)
 	case k == 12:
 		// (not fz6, a nil interface{}: header variables are printed, and how nil prints is left open)
 		f := fmt.Sprintf("fz%d", []int{0, 1, 2, 3, 4, 5, 7}[g.n(0, 6, "ifuncCond")])
